@@ -10,6 +10,7 @@ import time
 
 import common
 import vx
+from rustcut import Source
 
 PROP = 'C19'
 ALLOW_NON_SYMBOLS = {
@@ -243,9 +244,7 @@ def run(tier):
     names_info = None
     try:
         import json as _json
-        import prop_c20
-        prop_c20._link_pkgs()
-        nr = common.build_runner('c19names', {'dora-frontend': 'dora-frontend', 'dora-bytecode': 'dora-bytecode', 'dora-compiler': 'dora-compiler'}, lock=True)
+        nr = _names_runner()
         budget = 5000 if tier == 'quick' else 60000
         rc2, out2, err2, wall2 = common.run_cmd([nr, 'search', str(common.seed()), str(budget)], timeout=budget / 1000 + 600)
         names_info = _json.loads(out2.strip().split('\n')[-1])
@@ -284,6 +283,26 @@ def run(tier):
     return rep.exit_code()
 
 
+def aot_names_module():
+    """aot_compiled_function_name / aot_display_name and the enum CompiledFunctionTarget of dora-compiler/src/aot_compile.rs, cut verbatim
+    (pub(super) widened to pub; CompiledFunction reduced to the one field the naming reads: N8)."""
+    S = Source(os.path.join(common.repo_root(), 'dora-compiler/src/aot_compile.rs'))
+    out = ['#![allow(unused)]', 'use dora_bytecode::{BytecodeTypeArray, FunctionId, Program, display_fct, display_fct_specialized, display_ty};',
+           'use dora_compiler::TraitObjectThunk;', '']
+    out.append(S.cut_item('enum', 'CompiledFunctionTarget')['text'].replace('pub(super) enum', 'pub enum'))
+    out.append('pub struct CompiledFunction { pub target: CompiledFunctionTarget }')
+    out.append(S.cut_fn('aot_compiled_function_name', depth=0)['text'].replace('pub(super) fn', 'pub fn'))
+    out.append(S.cut_fn('aot_display_name', depth=0)['text'])
+    return '\n\n'.join(out) + '\n'
+
+
+def _names_runner():
+    import prop_c20
+    prop_c20._link_pkgs()
+    return common.build_runner('c19names', {'dora-frontend': 'dora-frontend', 'dora-bytecode': 'dora-bytecode', 'dora-compiler': 'dora-compiler'}, lock=True,
+                               extra_files={'aotnames.rs': aot_names_module()})
+
+
 def replay(rp):
     fi = rp.get('failing_input')
     if not fi:
@@ -291,9 +310,7 @@ def replay(rp):
         print(rp.get('verus_output', ''))
         return 1
     if fi.get('kind') == 'names':
-        import prop_c20
-        prop_c20._link_pkgs()
-        nr = common.build_runner('c19names', {'dora-frontend': 'dora-frontend', 'dora-bytecode': 'dora-bytecode', 'dora-compiler': 'dora-compiler'}, lock=True)
+        nr = _names_runner()
         rc, out, err, _ = common.run_cmd([nr, 'replay', fi['text_hex']])
         print(out.strip())
         return 1 if rc != 0 else 0
